@@ -8,6 +8,11 @@ from .core import Ctx, Infra, casehash, log
 
 
 def gen(ctx, cfg, label):
+    # CSVWrite appends: a second generator run in the same scratch directory must not find the first run's output
+    # (the first slice used to be driven twice, and every schema on a doubled value list)
+    for f in ("cases.ndjson", "vals.ndjson"):
+        if os.path.exists(ctx.spec(f)):
+            os.remove(ctx.spec(f))
     ctx.tlc("Gen_C01", cfg, label=label)
     cases = os.path.join(ctx.scratch, "cases.ndjson")
     vals = os.path.join(ctx.scratch, "vals.ndjson")
@@ -27,7 +32,7 @@ def c12(ctx: Ctx):
     if ctx.replay:
         v = ctx.replay["violation"]
         cases = os.path.join(ctx.scratch, "cases.ndjson")
-        write_ndjson(cases, [dict(s=v["s"], vals=[v["v"]] if "v" in v else [])])
+        write_ndjson(cases, [dict(s=v["s"], vals=[v["v"]] if "v" in v else [], share=bool(v.get("share")))])
         vals = os.path.join(ctx.scratch, "vals.ndjson")
         write_ndjson(vals, [])
     else:
@@ -39,9 +44,15 @@ def c12(ctx: Ctx):
             with open(cases, "a") as f:
                 f.write(open(cases + ".1").read())
         ctx.exhaustive = True
+    # the configurations part of the quantifier: every sequence of mode / customiser / reading / extra options (spec/Gen_C19O.tla)
+    ctx.tlc("Gen_C19O", "Gen_C19O.cfg", label="F generate option sets (mode x reading x extra x customiser position)")
+    optsp = os.path.join(ctx.scratch, "opts.ndjson")
+    ctx.extra["option_sets"] = ctx.unquote(ctx.spec("opts.ndjson"), optsp)
     ctx.build_driver()
     logp = os.path.join(ctx.scratch, "log.ndjson")
-    ctx.drive(cases, logp, env={"VERIF_VALS": vals}, shards=8)
+    ctx.drive(cases, logp, env={"VERIF_VALS": vals, "VERIF_OPTS": optsp,
+                                # the option sets are run on a seeded slice of the (schema, value) pairs (replay: on the one pair)
+                                "VERIF_OPTS_EVERY": "1" if ctx.replay else ("8" if ctx.tier == "quick" else "6")}, shards=8)
     rng = random.Random(ctx.seed)
     for l in open(logp):
         o = json.loads(l)
